@@ -151,6 +151,7 @@ impl Response {
             (Content::None, status) => {
                 /* no content and no declared length: tell the client not to wait for a body */
                 if self.headers.ContentLength().is_none()
+                && self.headers.TransferEncoding().is_none()/* e.g. HEAD for a stream: never both (RFC 9112 6.2) */
                 && !matches!(status.code(), 100..=199 | 304) {
                     self.headers.set().ContentLength("0");
                 }
